@@ -306,3 +306,50 @@ Example ex_c15_kl_nonneg_hypotheses :
     @is_inverse RF 2 Kzz Kinv.
 Proof. exact ex_kl2_model_hyps. Qed.
 Print Assumptions ex_c15_kl_nonneg_hypotheses.
+
+From Coq Require Import Permutation.
+From GPV Require Import Models.C02_priors Proofs.C02_priors Proofs.C02_added.
+Import ListNotations.
+
+(* ---- added-loss terms (Module.named_added_loss_terms; model: Models/C02_priors.v named_added = the traversal with
+   the memo on the TERM OBJECTS threaded through the whole module tree).  For EVERY module tree -- any sharing of modules
+   (a module reachable under several names), any nesting, any registration names -- every term object that occurs in
+   the tree is yielded, and hence subtracted by the objective, EXACTLY once *)
+Theorem c15_added_terms_never_twice :
+  forall t, NoDup (map reg_prior (named_added t)).
+Proof. exact named_added_nodup. Qed.
+Print Assumptions c15_added_terms_never_twice.
+
+Theorem c15_added_terms_complete :
+  forall t x, In x (map reg_prior (named_added t)) <-> In x (objs t).
+Proof. exact named_added_complete. Qed.
+Print Assumptions c15_added_terms_complete.
+
+Theorem c15_added_terms_are_the_distinct_objects :
+  forall t, Permutation (map reg_prior (named_added t)) (nodup Nat.eq_dec (objs t)).
+Proof. exact named_added_distinct. Qed.
+Print Assumptions c15_added_terms_are_the_distinct_objects.
+
+(* the traversal that does not hand its memo down to the children yields a term of a shared module twice (witness: the
+   tree of covar_module = ScaleKernel(base) next to model.base_kernel = base) *)
+Theorem c15_added_terms_fresh_memo_refuted :
+  exists t, ~ NoDup (map reg_prior (collect_added_fresh t)) /\ NoDup (map reg_prior (named_added t)).
+Proof. exact collect_added_fresh_refuted. Qed.
+Print Assumptions c15_added_terms_fresh_memo_refuted.
+
+Example ex_c15_added_terms_shared_module :
+  named_added (MNode 0 [(0, 5)] [MNode 1 [] [MNode 2 [(0, 7)] []]; MNode 2 [(0, 7)] []])%nat = [(0, 0, 5); (2, 0, 7)]%nat.
+Proof. exact ex_named_added_shared. Qed.
+Print Assumptions ex_c15_added_terms_shared_module.
+
+(* the same for the log priors: every registration of every distinct module exactly once (the C02 traversal theorems,
+   restated for the module tree of the variational objective: MLL -> {likelihood, model}) *)
+Theorem c15_priors_never_twice :
+  forall t, names_nodup t -> NoDup (map reg_key (named_priors t)).
+Proof. exact named_priors_once. Qed.
+Print Assumptions c15_priors_never_twice.
+
+Theorem c15_priors_every_registration :
+  forall t, NoDup (ids t) -> named_priors t = regs t.
+Proof. exact named_priors_tree_all. Qed.
+Print Assumptions c15_priors_every_registration.
